@@ -411,6 +411,13 @@ def run(tier):
                 continue
             data, tls = gen.request_bytes(proto, s, gplus=rng.choice(["+", "!", "$"]), force_encode=rng.random() < 0.3)
             requests.append((proto, s, 1, False, data, tls, False))
+    # URL: selectors are exempt from the filter (they name no file): climbing text in every part of them must stay text
+    for proto in gen.PROTOCOLS:
+        for s in ["URL:../../secret.txt://x", "/URL:../../secret://x", "URL:http://x/../../secret.txt", "/URL:..%2f..%2fsecret.txt://h/",
+                  "URL:/../secret.txt://", "/URL:.icons/../../secret.txt://x", "URL:../secretdir/x://y", "/URL:http://../../secret.txt",
+                  "URL:..://..", "/URL:dir1/../../secret.txt://x/y", "URL:file:///../../secret.txt", "/URL:../root2/secret://x"]:
+            data, tls = gen.request_bytes(proto, s, gplus=rng.choice(["+", "!", "$"]))
+            requests.append((proto, s, 1, False, data, tls, False))
     # in-band prefixes the protocols interpret themselves, followed by climbers (these paths may bypass handler selection)
     for pre in ("/PYGOPHERD-HTTPPROTO-ICONS", "/GEMINI-QUERY", "/wap/PYGOPHERD-HTTPPROTO-ICONS", "/.icons", "/.cap"):
         for tail in ("/../../secret.txt", "/../secret.txt", "/..", "/custom.gif/../../../secret.txt", "/%2e%2e/%2e%2e/secret.txt",
